@@ -12,6 +12,10 @@ use crate::types::{
 use std::collections::HashMap;
 use std::io::Read;
 
+/// Key bit that separates disposable pictures from reference pictures in
+/// `H263State::reference_states` (temporal references use at most 10 bits).
+const DISPOSABLE_KEY_FLAG: u16 = 0x8000;
+
 /// All state necessary to decode a successive series of H.263 pictures.
 pub struct H263State {
     /// External decoder options enabled on this decoder.
@@ -481,16 +485,27 @@ impl H263State {
             }
 
             let this_tr = next_decoded_picture.as_header().temporal_reference;
-            self.last_picture = Some(this_tr);
-            if !next_decoded_picture
+            let is_disposable = next_decoded_picture
                 .as_header()
                 .picture_type
-                .is_disposable()
-            {
-                self.reference_picture = Some(this_tr);
+                .is_disposable();
+
+            // Disposable pictures never become the reference picture, so they
+            // must not replace it in the map either: a disposable picture may
+            // carry the temporal reference of the current reference picture.
+            // Temporal references are at most 10 bits wide, so this key is free.
+            let this_key = if is_disposable {
+                this_tr | DISPOSABLE_KEY_FLAG
+            } else {
+                this_tr
+            };
+
+            self.last_picture = Some(this_key);
+            if !is_disposable {
+                self.reference_picture = Some(this_key);
             }
 
-            self.reference_states.insert(this_tr, next_decoded_picture);
+            self.reference_states.insert(this_key, next_decoded_picture);
             self.cleanup_buffers();
 
             reader.commit();
